@@ -20,6 +20,7 @@ fn main() {
         "sealed-msg" => drivers::sealed::run_msg(&a),
         "sealed-store" => drivers::sealed::run_store(&a),
         "keys" => drivers::sealed::run_keys(&a),
+        "parent" => drivers::parent::run(&a),
         "restore" => drivers::restore::run(&a),
         "roundtrip" => drivers::roundtrip::run(&a),
         "sched" => drivers::sched::run(&a),
